@@ -9,6 +9,7 @@ it falls in an open known class."""
 import json, re
 from vlib import sx, Sym, parse_sx, try_parse, cps
 import corpus
+import lexcheck
 
 TRUSTED_BASE = [
     'Coq 8.16.1 kernel + vm_compute (witnesses only)',
@@ -16,6 +17,7 @@ TRUSTED_BASE = [
     'harness_plain/src/bin/p_crash.rs over fend-core built from /repo with default features, dev (overflow-checks) and release profiles, 8 MiB main-thread stack, 4 GiB address space',
     'native stack exhaustion, allocator aborts and everything outside the modelled functions are observed by the probes, not proved (C06 is partial)',
 ]
+TRUSTED_BASE = TRUSTED_BASE + list(getattr(lexcheck, 'TRUSTED_BASE_LEX', []))
 ASSUMPTIONS = ['panic-freedom theorems cover only the modelled functions (json escaper, inline JSON, superscript exponents, i^y selector here; parser, codec, calendar, bignum, … in their own property files)']
 
 CFGS = [[a, b, c_, d, e] for a in (0, 1) for b in (0, 1) for c_ in (0, 1) for d in (0, 1, 2) for e in (0, 1)]
@@ -134,9 +136,9 @@ def check(c):
     c.rule = ('inputs: suite + manual corpus (read from /repo on this run), 1-3 token/char mutations of them, token soup, bounded nesting ramps, '
               'witnesses of repaired and listed findings; ops eval / preview / every-prefix preview+completion / completion / inline; '
               'x 48 context configurations sampled; debug and release profiles. non-trivial = not a verbatim suite input; distinct by (op, cfg, text)')
-    ok = c.proof(['C06'], extra_targets=['Extract/XCrash.vo'])
+    ok = c.proof(['C06', 'C06Lex'], extra_targets=['Extract/XCrash.vo', 'Extract/XLex.vo'])
     if c.tier == 'thorough' and ok:
-        c.thorough_proof(['C06'])
+        c.thorough_proof(['C06', 'C06Lex'])
 
     suite = corpus.suite_inputs()
     manual = corpus.manual_examples()
@@ -306,12 +308,19 @@ def check(c):
             want = sx([b'ok', [name.encode(), ins.encode()]])
             if o != want:
                 c.violation('completion-differs-from-model', {'kind': 'impl-vs-model', 'prefix': t, 'name': name, 'impl_insert': ins, 'model': o}, no_input=True)
+    # ---- lexer model vs the real lexer (tokens, positions, error variants; oracle contract) ----
+    lexcheck.run(c, ('tables', 'tie'))
     c.sample({'op': 'eval', 'cfg': meta[len(base) + 40][1], 'input': meta[len(base) + 40][3]})
     c.sample({'op': 'prefixes', 'input': sample[10][1]})
     c.sample({'op': 'superscript', 'digits': sup_cases[6], 'model': mo[6], 'impl(2^..)': io2[13]})
 
 
 def replay(c, obj):
+    try:
+        if lexcheck.replay(c, obj):
+            return 0
+    except Exception:
+        pass
     print(json.dumps(obj, indent=1)[:3000])
     if 'input_codepoints' in obj and obj.get('op') in ('eval', 'preview', 'prefixes', 'inline'):
         line = sx([Sym(obj['op']), obj.get('cfg') or [0, 0, 0, 0, 0], obj['input_codepoints']])
